@@ -614,7 +614,7 @@ var constraints = []struct {
 	{"/sample-queue-size", "jsonlines", []any{0, -1}}, {"/ammo-queue-size", "json", []any{0, -3}},
 	{"/limit", "", []any{-1}}, {"/passes", "", []any{-1}},
 	{"/uri-elements", "", []any{0, -1}},
-	{"/target", "", []any{"", "no-port", "host:notaport"}},
+	{"/target", "", []any{"", "no-port", "host:notaport", ":", ":0", ":99999", ":80a", ":-1", "host:", "127.0.0.1:65536", "bad host:80"}},
 	{"/port", "", []any{0}},
 	{"/path", "file", []any{""}},
 }
@@ -978,17 +978,33 @@ func runDiscardDefault(out *hutil.Out) {
 			}
 			f := filepath.Join(".", "zv_c17_conf.yaml")
 			_ = os.WriteFile(f, []byte(t), 0o644)
-			out.Evals++
-			out.Cells++
-			conf := cli.ZvReadConfig([]string{f})
-			for i, p := range conf.Engine.Pools {
-				out.States++
-				if p.DiscardOverflow != want {
-					out.Violate("C17|discard_overflow|"+variant, fmt.Sprintf("%s pool %d: discard_overflow %s in the file, decoded as %v (documented: on when absent)", name, i, variant, p.DiscardOverflow),
-						map[string]any{"tier": "discard", "base": name, "variant": variant})
+			for _, via := range []string{"file", "stdin"} {
+				out.Evals++
+				out.Cells++
+				var conf *cli.CliConfig
+				if via == "file" {
+					conf = cli.ZvReadConfig([]string{f})
+				} else {
+					// `pandora -` reads the configuration from standard input
+					in, err := os.Open(f)
+					if err != nil {
+						continue
+					}
+					saved := os.Stdin
+					os.Stdin = in
+					conf = cli.ZvReadConfig([]string{"-"})
+					os.Stdin = saved
+					in.Close()
 				}
+				for i, p := range conf.Engine.Pools {
+					out.States++
+					if p.DiscardOverflow != want {
+						out.Violate("C17|discard_overflow|"+variant+"|"+via, fmt.Sprintf("%s pool %d (config read from %s): discard_overflow %s in the config, decoded as %v (documented: on when absent)", name, i, via, variant, p.DiscardOverflow),
+							map[string]any{"tier": "discard", "base": name, "variant": variant})
+					}
+				}
+				out.Outcome("discard", name+variant+via)
 			}
-			out.Outcome("discard", name+variant)
 		}
 	}
 }
